@@ -39,7 +39,7 @@ pub fn gen_term(r: &mut Rng, c: &GenCfg, depth: usize, next_binder: &mut Name, s
     let mut pay = None;
     for f in o.fields {
         match f {
-            Fld::S | Fld::X => {
+            Fld::S | Fld::X(_) => {
                 // free name or a bound name in scope
                 if !scope.is_empty() && r.chance(1, 2) {
                     slots.push(*r.pick(scope));
@@ -175,9 +175,64 @@ pub fn gen_history(r: &mut Rng, c: &GenCfg, max_terms: usize, max_unions: usize)
     let mut fam: Vec<&'static str> = vec![];
     let mut planned_unions: Vec<(usize, usize)> = vec![];
     while terms.len() < nterms {
-        let roll = r.below(10);
+        let roll = r.below(13);
         if roll < 5 || terms.is_empty() {
             terms.push(gen_closed_term(r, c));
+        } else if roll >= 10 {
+            // users of a (potentially) symmetric class: w(t) and w(sigma t), or a node using t and sigma t side by side
+            let i = r.below(terms.len());
+            let t = terms[i].canon();
+            let pt = permute_slots(&terms[i], r).canon();
+            let fv: Vec<Name> = t.fv().into_iter().collect();
+            if pt != t && fv.len() >= 2 {
+                let b = fv[r.below(fv.len())];
+                let wrap = |x: Tm, k: usize| -> Tm {
+                    match k {
+                        0 => Tm::node("lam", vec![], vec![(vec![b], x)]),
+                        1 => Tm::node("idx", vec![b], vec![(vec![], x)]),
+                        2 => Tm::node("u", vec![], vec![(vec![], x)]),
+                        3 => Tm::node("sum", vec![], vec![(vec![], Tm::leaf("c", vec![])), (vec![b], x)]),
+                        _ => Tm::node("let", vec![], vec![(vec![b], x), (vec![], Tm::leaf("d", vec![]))]),
+                    }
+                };
+                let mut newt = vec![];
+                if roll == 10 {
+                    let k = r.below(5);
+                    newt.push(wrap(t.clone(), k));
+                    newt.push(wrap(pt.clone(), k));
+                } else if roll == 11 {
+                    let op = *r.pick(&["app", "pair"]);
+                    newt.push(Tm::node(op, vec![], vec![(vec![], t.clone()), (vec![], pt.clone())]));
+                    if r.chance(1, 2) {
+                        newt.push(Tm::node(op, vec![], vec![(vec![], pt.clone()), (vec![], t.clone())]));
+                    }
+                } else {
+                    // a second class with the same arity, to be united with the symmetric one later
+                    let op2 = match t.op { "f" => "k", "k" => "f", o => o };
+                    let mut t2 = t.clone();
+                    t2.op = op2;
+                    if op2 != t.op {
+                        newt.push(Tm::node("pair", vec![], vec![(vec![], t2.clone()), (vec![], { let mut p2 = pt.clone(); p2.op = op2; p2 })]));
+                        newt.push(t2);
+                    }
+                }
+                let ok = newt.iter().all(|x| x.max_names() <= c.max_names && c.ops.contains(&x.op)) && c.ops.contains(&"c") && !newt.is_empty();
+                if ok {
+                    fam.push("symmetric-user");
+                    terms.push(pt);
+                    let pi = terms.len() - 1;
+                    if r.chance(3, 4) {
+                        planned_unions.push((i, pi));
+                    }
+                    for x in newt {
+                        terms.push(x);
+                    }
+                    if roll == 12 && r.chance(3, 4) {
+                        // unite the symmetric class with the other class of the same arity (after its users exist)
+                        planned_unions.push((i, terms.len() - 1));
+                    }
+                }
+            }
         } else if roll == 5 {
             // permuted copy of an earlier term (symmetry family: transposition, 3-cycle, 4-cycle, product)
             let i = r.below(terms.len());
